@@ -292,6 +292,49 @@ func genReq(g *vkit.Rand) *Req {
 	return q
 }
 
+// sibling returns a copy of q that differs in exactly one attribute.
+func sibling(g *vkit.Rand, q *Req) *Req {
+	c := *q
+	c.Groups = append([]string(nil), q.Groups...)
+	switch g.Intn(7) {
+	case 0:
+		c.Verb = g.Pick(verbs)
+	case 1:
+		c.User = g.Pick(users)
+	case 2:
+		if len(c.Groups) > 0 && g.Bool() {
+			c.Groups = c.Groups[:len(c.Groups)-1]
+		} else {
+			c.Groups = append(c.Groups, g.Pick(ugroups))
+		}
+	case 3:
+		if c.IsResource {
+			c.Group = g.Pick(apiGroups)
+		} else {
+			c.Path = g.Pick(paths)
+		}
+	case 4:
+		if c.IsResource {
+			c.Resource = g.Pick(resources)
+		} else {
+			c.Path = g.Pick(paths)
+		}
+	case 5:
+		if c.IsResource {
+			c.Sub = g.Pick(subs)
+		} else {
+			c.Path = g.Pick(paths)
+		}
+	default:
+		if c.IsResource {
+			c.Name = g.Pick(names)
+		} else {
+			c.Verb = g.Pick(verbs)
+		}
+	}
+	return &c
+}
+
 func ruleNontrivial(ru *proxyv1alpha1.DispatchPolicyRule) bool {
 	for _, l := range [][]string{ru.Verbs, ru.APIGroups, ru.Resources, ru.ResourceNames, ru.Users, ru.UserGroups, ru.NonResourceURLs} {
 		if nontrivialList(l) {
@@ -386,8 +429,22 @@ func wholeRules(r *vkit.R) {
 			return
 		}
 		defer ci.Stop()
-		for k := 0; k < 6; k++ {
-			q := genReq(g)
+		// purity: besides fresh requests, "siblings" of earlier requests that differ in exactly one attribute are asked,
+		// and earlier requests are asked again — a decision that depends on what was asked before (a cache keyed by
+		// too little, state carried between calls) shows up as a divergence from the history-free reference.
+		var asked []*Req
+		for k := 0; k < 10; k++ {
+			var q *Req
+			switch {
+			case k >= 3 && len(asked) > 0 && k%3 == 0:
+				q = sibling(g, asked[g.Intn(len(asked))])
+			case k >= 3 && len(asked) > 0 && k%3 == 1:
+				c := *asked[g.Intn(len(asked))]
+				q = &c
+			default:
+				q = genReq(g)
+			}
+			asked = append(asked, q)
 			ref := refPolicies(ps, q)
 			got := -1
 			if p := clusters.MatchPolicies(attrs(q), ps); p != nil {
